@@ -255,8 +255,17 @@ def handle (op : String) (args : List String) (impl : Impl) : Option Ans :=
     let dec ← codesOfHex dechex
     let ts ← scaleOfSuffix sfx
     let m := epochFromStrIdx codes
+    -- layout: the documented one is `PREFIX␣x␣SCALE` (one blank, one or two before the scale); the parser also takes the
+    -- numeral directly after the prefix, tabs, and no blank before the scale: such texts denote the same value, and for
+    -- them an error is accepted as well ("value or error, never another instant")
+    let standard := renderNumeric pfx dec 1 sfx == codes || renderNumeric pfx dec 2 sfx == codes
+    let isBl (c : Nat) : Bool := c == 32 || c == 9
+    let pc := scaleCodes pfx; let sc := scaleCodes sfx
+    let middle := (codes.drop pc.length).take (codes.length - pc.length - sc.length)
+    let variant := codes.take pc.length == pc && codes.drop (codes.length - sc.length) == sc &&
+                   ((middle.dropWhile isBl).reverse.dropWhile isBl).reverse == dec
     let sp :=
-      if renderNumeric pfx dec 1 sfx ≠ codes ∧ renderNumeric pfx dec 2 sfx ≠ codes then "FAIL:generator_text_differs_from_spec_render"
+      if !standard && !variant then "FAIL:generator_text_differs_from_spec_render"
       else match readDecimal dec, impl with
         | some (sg, mant, ex), .ok [r] =>
           (match parseEp? r with
@@ -265,11 +274,11 @@ def handle (op : String) (args : List String) (impl : Impl) : Option Ans :=
            | none => "FAIL:decode")
         | none, _ => "FAIL:decode"
         | _, .ok _ => "FAIL:decode"
-        | _, .other "err" => if numericRequired sfx ts then "FAIL:rejected_valid" else "na"
+        | _, .other "err" => if standard && numericRequired sfx ts then "FAIL:rejected_valid" else "na"
         | _, .other w => "FAIL:" ++ w
     let isErr : Bool := match m with | .err => true | _ => false
     pure { model := showResEp m, spec := sp,
-           branch := "nparse:" ++ pfx ++ ":" ++ sfx ++ (if isErr then ":err" else ":ok") }
+           branch := "nparse:" ++ pfx ++ ":" ++ sfx ++ (if standard then "" else ":layout") ++ (if isErr then ":err" else ":ok") }
   -- ---------------------------------------------------------------- C13E: totality stream
   | "p_epoch", [hex] | "p_greg", [hex] => do
     let codes ← codesOfHex hex
